@@ -99,3 +99,52 @@ def check(rep, binary, sources, what, tag="ptwin", limit_tokens=400):
     rep.add("sources_compared_with_the_parser_twin", n)
     rep.add("first_errors_predicted_by_the_parser_twin", nerr)
     return n, res.distinct
+
+
+def check_generated(rep, binary, n, what, tag="pgen"):
+    """MC_ParserGen: TLC enumerates every sequence of up to n tokens over the whole vocabulary and the parser twin's prediction for it; each
+    sequence is rendered one token per line, compiled, and compared (the scanner must also hand the parser exactly those token kinds)."""
+    import re as _re
+    text = open(os.path.join(vlib.SPEC, "MC_ParserGen.tla")).read()
+    vocab = _re.findall(r'T\("(\w+)", "((?:[^"\\]|\\.)*)"\)', text)
+    cfgdir = os.path.join(vlib.WORK, "cfg")
+    os.makedirs(cfgdir, exist_ok=True)
+    cfg = os.path.join(cfgdir, "MC_ParserGen_%d.cfg" % n)
+    with open(cfg, "w") as f:
+        f.write("SPECIFICATION Spec\nCONSTANT N = %d\nINVARIANT EmitGen\nCHECK_DEADLOCK FALSE\n" % n)
+    preds = []
+    res = run_tlc("MC_ParserGen", cfg, workers=12, timeout=6000, keep_lines=False, tag=tag, jvm=["-Xss1g"],
+                  on_line=lambda t, o: preds.append(o) if t == "PGEN" else None)
+    if res.violation:
+        rep.violation("Parser.tla is not total on the sequences of up to %d tokens: TLC reports\n%s" % (n, res.violation[:1500]), {"tlc": res.violation})
+        return 0, 0
+
+    def render(seq):
+        return "".join(("@" if vocab[i - 1][0] == "Error" else vocab[i - 1][1]) + "\n" for i in seq)
+    cases = [{"id": k, "main": render(p["seq"]), "compile_only": True, "stack_mb": 64} for k, p in enumerate(preds)]
+    nn = bad = nerr = 0
+    for c, p, r in zip(cases, preds, Pool(binary, "run", timeout=15).map(cases)):
+        if "runs" not in r:
+            continue
+        nn += 1
+        run = r["runs"][0]
+        o = p["out"]
+        src = c["main"]
+        if o["r"] == "ok":
+            ok = run["ok"]
+            want = "accepted"
+        else:
+            nerr += 1
+            want = "[module \"main\", line %d] Error%s: %s" % (o["line"], o["where"], o["msg"])
+            ok = (not run["ok"]) and run.get("kind") == "CompileError" and run.get("messages") and run["messages"][0] == want
+        if not ok:
+            bad += 1
+            if bad <= 6:
+                rep.violation("%s: %r: the parser twin predicts %r, the compiler gives %r" % (what, src, want, (run.get("messages") or ["accepted"])[0] if not run["ok"] else "accepted"),
+                              {"source": src, "spec": o, "impl": run})
+    log("[parsertwin] %s: every sequence of up to %d tokens over %d vocabulary entries: %d compared (%d with a predicted error), TLC %d states"
+        % (what, n, len(vocab), nn, nerr, res.distinct))
+    rep.add("sources_compared_with_the_parser_twin", nn)
+    rep.add("first_errors_predicted_by_the_parser_twin", nerr)
+    rep.coverage["token_sequences_enumerated_by_TLC_up_to_length"] = n
+    return nn, res.distinct
